@@ -112,3 +112,18 @@ Proof.
     + apply scan_interval; assumption.
 Qed.
 Print Assumptions C12_source_samples_interval.
+
+(* non-vacuity: a concrete run of the translated source over Q (pmf 1/4, 0, 1/2, 1/4; u = 0, 1/4, 3/4, 1 - 2^-60 and a
+   u above the total of a deficient pmf, which takes the fall-back) *)
+Example C12_source_run_example :
+  run Qplus Qminus Qmult (fun a b => negb (Qle_bool b a)) Qle_bool Qeq_bool inject_Z
+      (fenv1 Qplus Qminus Qmult (fun a b => negb (Qle_bool b a)) Qle_bool Qeq_bool inject_Z)
+      sampling_samples_discrete_python
+      [VArr (vlist [1#4; 0; 1#2; 1#4]); VArr (vlist [0; 1#4; 3#4; 1 - (1#1152921504606846976)]); VNone]
+  = Some (VArr [VInt 0%Z; VInt 2%Z; VInt 3%Z; VInt 3%Z]) /\
+  run Qplus Qminus Qmult (fun a b => negb (Qle_bool b a)) Qle_bool Qeq_bool inject_Z
+      (fenv1 Qplus Qminus Qmult (fun a b => negb (Qle_bool b a)) Qle_bool Qeq_bool inject_Z)
+      sampling_samples_discrete_python
+      [VArr (vlist [1#4; 1#2; 0]); VArr (vlist [7#8]); VNone]
+  = Some (VArr [VInt 1%Z]).
+Proof. split; vm_compute; reflexivity. Qed.
